@@ -42,7 +42,11 @@ def gen_scenario(r):
     host = grammar.gen_host(r)
     sc = {'kind': kind, 'nonce': nonce}
     if kind == 'connect':
-        head = ('CONNECT %s:443 HTTP/1.1\r\nHost: %s:443\r\n%s\r\n' % (host, host, 'Proxy-Connection: keep-alive\r\n' if r.chance(0.5) else '')).encode()
+        # the headers clients really send with a CONNECT (WinHTTP adds "Content-Length: 0"), none of which changes what a CONNECT is
+        extra = ''.join(h + '\r\n' for h in r.pick([[], ['Proxy-Connection: keep-alive'], ['Content-Length: 0'], ['User-Agent: c16', 'Content-Length: 0', 'Proxy-Connection: Keep-Alive'],
+                                                       ['Proxy-Authorization: Basic dXNlcjpwYXNz'], ['Pragma: no-cache', 'Content-Length:  0 ']]))
+        tgt = r.pick([host, host, host, '[2001:db8::%x]' % r.randrange(1, 65535), '10.1.2.%d' % r.randrange(1, 255)])
+        head = ('CONNECT %s:443 HTTP/1.1\r\nHost: %s:443\r\n%s\r\n' % (tgt, tgt, extra)).encode()
         status = r.pick([200, 200, 200, 201, 403, 403, 502, 407, 404, 101])
     else:
         head = ('GET /ws-%s HTTP/1.1\r\nHost: %s\r\nConnection: Upgrade\r\nUpgrade: websocket\r\n\r\n' % (nonce, host)).encode()
@@ -276,7 +280,7 @@ def shard(args):
             rp = fw.write_case_replay('C16', '%s-%d' % (key, d['id']), (d['id'], dict(cfg, DUMP=31), ops))
             out['viol'].append((key, '%s [%s]' % (det, cl), rp))
         if s == 0 and len(out['samples']) < 2:
-            out['samples'].append({'class': cl, 'ops': [[hxb.OPNAMES[o[0]], (o[1] or b'')[:90].decode('latin-1')] for o in ops[:8]], 'calls': d.get('calls', [])[:10]})
+            out['samples'].append({'class': cl, 'ops': [[hxb.OPNAMES[o[0]], (o[1][:90].decode('latin-1') if isinstance(o[1], bytes) else o[1])] for o in ops[:8]], 'calls': d.get('calls', [])[:10]})
     return out
 
 
